@@ -124,6 +124,90 @@ def signature(e, m, clauses):
     return sig
 
 
+_WIRE = None
+
+
+def _install_wire_tap():
+    """Record (per rank thread) a copy of every send buffer handed to Alltoall on the simulated layer."""
+    global _WIRE
+    if _WIRE is not None:
+        return _WIRE
+    import threading
+    from mpi4py import MPI
+    _WIRE = threading.local()
+    orig = MPI.Intracomm.Alltoall
+
+    def tapped(self, sendbuf, recvbuf):
+        lst = getattr(_WIRE, "cap", None)
+        if lst is not None:
+            lst.append(np.array(sendbuf, copy=True))
+        return orig(self, sendbuf, recvbuf)
+    MPI.Intracomm.Alltoall = tapped
+    return _WIRE
+
+
+def wire_job(comm, shape, nprocs, of, ot, dtype):
+    tap = _install_wire_tap()
+    h, eta = sl.handler_job(comm, shape, nprocs, {"A": of, "B": ot})
+    G = sl.tokens(shape, dtype)
+    la = h.getLayout("A")
+    a, b, c = (sl.fresh(h.bufferSize, dtype) for _ in range(3))
+    a[:la.size] = sl.local_block(G, la).ravel()
+    tap.cap = []
+    try:
+        import warnings
+        with warnings.catch_warnings():
+            warnings.simplefilter("ignore")
+            h.transpose(a, b, "A", "B", c)
+        return {"coords": [int(x) for x in h.mpiCoords], "sends": [sl.decode(x).tolist() for x in tap.cap]}
+    finally:
+        tap.cap = None
+
+
+def wire_binding(ctx, rng, quick):
+    """Transpose.tla is bound to the code below the level the property speaks at: what every rank hands to Alltoall (the packed,
+    padded blocks) must be what the specification's Pack produced.  A difference is DRIFT of the transcription, not a violation
+    of C01 (whose verdict is the destination block) - but without this binding the exhaustive TransposeMC runs would say
+    nothing about the code."""
+    from mpi4py import MPI
+    cfg = ("INIT Init\nNEXT Next\nCONSTANTS ND = 3 MaxExt = 1 MaxP = 3 MaxLay = 2 SampleK = %d SampleNDs = {2,3,4} SampleExt = 5 SampleLay = 3\n"
+           "INVARIANT NoError\nINVARIANT DumpWire\nCHECK_DEADLOCK FALSE\n" % (60 if quick else 1500))
+    r = ctx.tlc("TransposeMC", cfg, what="wire contents of the first hop (sampled configurations)", seed=ctx.seed + 9, timeout=3600, workers=4)
+    if r.violated:
+        ctx.drift_report("TransposeMC violates %s while producing wire rows" % r.violated)
+        return
+    seen, ncmp, nbad = set(), 0, 0
+    for row in r.rows:
+        key = (tuple(row["sh"]), tuple(row["np"]), tuple(row["of"]), tuple(row["ot"]))
+        if key in seen:
+            continue
+        seen.add(key)
+        nd = len(row["sh"])
+        of, ot = [d - 1 for d in row["of"]], [d - 1 for d in row["ot"]]
+        dtype = DTYPES[len(seen) % 3]
+        res = MPI.run(int(np.prod(row["np"])), wire_job, policy="random", seed=len(seen), args=(row["sh"], row["np"], of, ot, dtype))
+        if not res.ok:
+            ctx.drift_report("wire binding: real transpose failed on %s: %s" % (key, res.describe()[:200]))
+            nbad += 1
+            continue
+        want = {tuple(x["rc"]): x for x in row["ranks"]}
+        for v in res.values:
+            rc = tuple(v["coords"] + [0] * (nd - len(v["coords"])))
+            w = want[rc]
+            ncmp += 1
+            ok = len(v["sends"]) == 1 and len(v["sends"][0]) == w["size"] and all(
+                a == b for a, b in zip(w["send"], v["sends"][0]) if a != -7)
+            if not ok:
+                nbad += 1
+                ctx.drift_report("wire binding: rank %s of %s hands %s to Alltoall, Transpose.tla's Pack gives %s" % (
+                    rc, key, [x[:40] for x in v["sends"]], w["send"][:40]))
+    ctx.extra["wire_rows_compared"] = ncmp
+    ctx.extra["wire_rows_differing"] = nbad
+    ctx.log("wire binding: %d rank send buffers of %d hop configurations compared with Transpose.tla's Pack, %d differ" % (ncmp, len(seen), nbad))
+    if ncmp == 0:
+        raise Machinery("vacuity: no wire row compared")
+
+
 def run(ctx):
     rng = random.Random(ctx.seed)
     quick = ctx.quick()
@@ -230,4 +314,5 @@ def run(ctx):
                                   m, m["rank"], rej[j], e.get("err", "block differs from Block(...)")),
                               {"event": e, "meta": m})
     ctx.sample({"config": chosen[0][1], "event": {k: v for k, v in events[0].items()}})
+    wire_binding(ctx, rng, quick)
     ctx.sample({"config": chosen[-1][1], "meta": meta[-1]})
